@@ -81,6 +81,22 @@ def is_pass_through(written, resolved):
     return False
 
 
+_CC = ("map", "and_then", "unwrap_or_else", "map_or", "map_or_else")
+_CC_OWNERS = ("std::option::Option::", "core::option::Option::", "std::result::Result::", "core::result::Result::")
+
+
+def closure_comb(written):
+    """Option/Result method whose result is (partly) what its closure argument returns"""
+    if not written:
+        return None
+    nb = norm(written)
+    if nb.startswith(_CC_OWNERS):
+        s = nb.rsplit("::", 1)[-1]
+        if s in _CC:
+            return s
+    return None
+
+
 class Body:
     def __init__(self, fn, F=None):
         self.fn = fn
@@ -400,13 +416,51 @@ class Body:
         self.origins(x, depth, via=v)
         return v
 
+    def _closure_results(self, clo_op, recv_op, path, d, order, via):
+        """origins (in this body's terms) of what the closure in clo_op returns when called with recv_op's payload as its argument;
+        None when the closure cannot be identified"""
+        if self.F is None or d <= 0:
+            return None
+        cids = [(o[1], o[2]) for o in self._origins(clo_op, d, None, order) if o[0] == "agg" and o[1] in self.F.fns and self.F.fns[o[1]]["kind"] == "Closure"]
+        if len(cids) != 1:
+            return None
+        cid, ablk = cids[0]
+        cache = self.F.__dict__.setdefault("_body_cache", {})
+        Bc = cache.get(cid)
+        if Bc is None:
+            Bc = cache[cid] = Body(self.F.fns[cid], self.F)
+        ops = []
+        for s in self.blocks[ablk]["stmts"]:
+            if s["k"] == "assign" and s["rv"]["k"] == "agg" and s["rv"].get("def") == cid:
+                ops = s["rv"]["ops"]
+        res = set()
+        argn = Bc.locals[2].get("name") if len(Bc.locals) > 2 and Bc.arg_count >= 2 else None
+        for o in Bc._origins({"l": 0, "p": []}, d, via, None, path0=path):
+            if o[0] == "param":
+                if o[1] == 2 or (argn is not None and o[1] == argn):
+                    if recv_op is not None:
+                        res |= self._origins(recv_op, d, via, order, path0=o[2])
+                    else:
+                        res.add(("unknown", "closure-arg"))
+                else:
+                    idx = [i for i, n in Bc.upvar.items() if n == o[1]]
+                    if idx and idx[0] < len(ops):
+                        res |= self._origins(ops[idx[0]], d, via, order, path0=o[2])
+                    else:
+                        res.add(("unknown", "upvar"))
+            elif o[0] in ("call", "agg", "bin"):
+                res.add(("in-closure", o[0], o[1], cid))
+            else:
+                res.add(o)
+        return res
+
     def origins(self, x, depth=40, via=None, restrict=None, deep=False):
         """`restrict`: ordered list of blocks (a path prefix). When given, a local with several definitions takes only the
         latest definition that lies on that path (path-restricted provenance); single-definition temporaries are unaffected."""
         order = {b: i for i, b in enumerate(restrict)} if restrict is not None else None
         return self._origins(x, depth, via, order, deep)
 
-    def _origins(self, x, depth, via, order, deep=False):
+    def _origins(self, x, depth, via, order, deep=False, path0=()):
         """Origins of an operand or place: set of tuples
              ('param', name_or_index, fieldpath)   – argument / captured variable (+ field names)
              ('const', def_or_None, value)         – named or literal constant
@@ -488,6 +542,28 @@ class Body:
                         from_rvalue(payload["rv"], path, d - 1, bi)
                 elif kind == "call":
                     w, r = callee_of(payload)
+                    cc = closure_comb(w) if self.F is not None else None
+                    if cc and len(payload["args"]) >= (3 if cc in ("map_or", "map_or_else") else 2) and "<discr>" not in path:
+                        # the value also is what the closure argument returns (Option/Result::map, unwrap_or_else, map_or ..)
+                        a_ = payload["args"]
+                        clos = {"map": [(a_[1], True)], "and_then": [(a_[1], True)], "unwrap_or_else": [(a_[1], False)],
+                                "map_or": [(a_[-1], True)], "map_or_else": [(a_[1], False), (a_[-1], True)]}[cc]
+                        opaque = False
+                        for cop, takes in clos:
+                            rs = self._closure_results(cop, a_[0] if takes else None, path, d - 1, order, via)
+                            if rs is None:
+                                opaque = True
+                            else:
+                                out.update(rs)
+                        if cc == "map_or":
+                            from_operand(a_[1], path, d - 1)
+                        if cc in ("unwrap_or_else",) and not opaque:
+                            from_operand(a_[0], path, d - 1)
+                            continue
+                        if cc in ("map_or", "map_or_else"):
+                            if opaque:
+                                out.add(("call", r or w or "<indirect>", bi, path))
+                            continue
                     if w == POLL or (w and is_pass_through(w, r) and payload["args"]):
                         # the Poll::Ready payload / pass-through: value of arg 0
                         p2 = path
@@ -554,9 +630,9 @@ class Body:
                 out.add(("unknown", k))
 
         if "k" in x and x["k"] in ("copy", "move", "const"):
-            from_operand(x, (), depth)
+            from_operand(x, tuple(path0), depth)
         else:
-            from_place(x, (), depth)
+            from_place(x, tuple(path0), depth)
         return out
 
     # ------------------------------------------------------------------ branch conditions
